@@ -56,4 +56,17 @@ example : angleFilter (3 : ℝ) 2 = true := by
   rw [angleFilter_iff]; right
   have := Real.pi_le_four
   linarith
+/-! ### the offset whose angle is filtered: moved point minus foot, both in the mesh frame
+(the translator's pattern requires the source to re-bind `point` to `transform * point` before projecting) -/
+
+/-- the offset is the difference of the MOVED query and its foot on the mesh -/
+theorem tol_offset_eq (q foot : V3 ℝ) : GenRs.tol_offset q foot = V3.sub q foot := rfl
+
+/-- so it moves with the frame: expressing query and foot in another frame by the same translation leaves it
+    unchanged (a rotation would rotate it with the face normal; the angle between them is what is filtered) -/
+theorem tol_offset_translation_invariant (q foot t : V3 ℝ) :
+    GenRs.tol_offset (V3.add q t) (V3.add foot t) = GenRs.tol_offset q foot := by
+  simp only [GenRs.tol_offset, V3.sub, V3.add, V3.mk.injEq]
+  refine ⟨by ring, by ring, by ring⟩
+
 end C02T
